@@ -241,7 +241,7 @@ def _with_stream(scn):
 
 
 def subsets_cases(tier, seed):
-    limit = 14 if tier == "quick" else 16
+    limit = 14 if tier == "quick" else 18
     for scn in corpus(sizes=(0, 1)):
         stream = baseline(scn)[1]
         L = len(stream)
@@ -373,7 +373,7 @@ def _resolve_tail(case):
 
 def fuzz_cases(tier, seed):
     for shard in range(16):
-        yield {"fuzz_shard": shard, "runs": 40000, "seed": seed * 100 + shard + 1}
+        yield {"fuzz_shard": shard, "runs": 250000, "seed": seed * 100 + shard + 1}
 
 
 def check_fuzz(case):
@@ -443,7 +443,7 @@ PARTS = [
     Part("long-streams", "enum", check, cases=long_cases),
     Part("after-a-history", "enum", check, cases=history_cases),
     Part("random", "hyp", check, strategy=random_strategy,
-         examples={"quick": 400, "thorough": 4000}, shards={"quick": 4, "thorough": 16}),
+         examples={"quick": 400, "thorough": 12000}, shards={"quick": 4, "thorough": 16}),
     Part("atheris", "enum", check_fuzz, cases=fuzz_cases, tiers=("thorough",), shards={"quick": 1, "thorough": 16}),
 ]
 
